@@ -33,8 +33,9 @@ def plans(rng, nchildren, model):
         out.append({"hashseed": hs[i % len(hs)], "conc": model["conc"], "model": model,
                     "prior_events": rng.choice([0, 3, 50, 1000]), "prior_types": rng.choice([0, 2, 17]), "prior_strings": rng.choice([0, 10, 500]),
                     "pilot_replications": 1 if i % 3 == 1 else 0, "steps_first": 0,
-                    "pauses": [rng.choice([1, 2, 3, 4, 6]) for _ in range(rng.choice([0, 1, 2, 4]))]})
-    out[0].update(pilot_replications=0, steps_first=0, pauses=[], prior_events=0, prior_types=0, prior_strings=0)   # the plain reference run
+                    "pauses": [rng.choice([1, 2, 3, 4, 6]) for _ in range(rng.choice([0, 1, 2, 4]))],
+                    "bounds": [] if model["tc_listener"] else sorted([[rng.randrange(1, model["end_t"]), rng.random() < 0.5] for _ in range(rng.choice([0, 1, 2]))])})
+    out[0].update(pilot_replications=0, steps_first=0, pauses=[], bounds=[], prior_events=0, prior_types=0, prior_strings=0)   # the plain reference run
     return out
 
 
@@ -61,6 +62,8 @@ def run_children(plist):
 
 def run(ctx: Ctx):
     ctx.assumptions += ["children are separate interpreter processes; TLC validates their concatenated traces against one specification with one program / statistics memo",
+                        "models with a TIME_CHANGED listener that draws random numbers are paused by stop/start only; models without one also by bounded runs "
+                        "(a bounded run moves the clock to its bound, so the next TIME_CHANGED may be omitted: same remark as for step())",
                         "children differ in stop/start pause positions, not in single steps: step() always announces TIME_CHANGED while the run loop announces it only "
                         "when the time changes, so a model whose listeners draw on TIME_CHANGED is not invariant under stepping (noted in DESIGN.md, not alarmed: the "
                         "statement speaks of where the run was paused)",
@@ -74,7 +77,7 @@ def run(ctx: Ctx):
     pstraces = []
     for mi in range(nmodels):
         model = {"end_t": ctx.rng.choice([4, 6]), "warm_t": ctx.rng.choice([0, 1, 2]), "maxev": ctx.rng.choice([12, 20, 30]),
-                 "listeners": ctx.rng.choice([5, 6, 8]), "replication_nr": ctx.rng.choice([0, 1]), "conc": dd.CONCS_OFF[mi % len(dd.CONCS_OFF)]}
+                 "listeners": ctx.rng.choice([5, 6, 8]), "replication_nr": ctx.rng.choice([0, 1, 1]), "tc_listener": mi % 2 == 0, "conc": dd.CONCS_OFF[mi % len(dd.CONCS_OFF)]}
         pl = plans(ctx.rng, nchildren, model)
         res = run_children(pl)
         trace = []
